@@ -277,7 +277,12 @@ func runC09(c c09Case, rng *rand.Rand, r *rep.Report) (key, msg string, stats ma
 					cand := w.Candidate(victim.Sid, c.Rev)
 					cand.Cfg.CandidateRev = 7 - c.Rev
 					if cand.DialCandidateWS() == nil {
-						for _, f := range []string{"2probe", "2", "3", "5", "2", "3", "4x", "1"} {
+						time.Sleep(time.Millisecond)
+						frames := []string{"2probe", "5", "2", "3", "2", "4x", "3", "1"}
+						if rng.IntN(3) == 0 {
+							frames = []string{"2probe", "2", "3", "5", "2", "3", "4x", "1"}
+						}
+						for _, f := range frames {
 							cand.WSWriteRaw(false, []byte(f))
 							time.Sleep(time.Millisecond)
 						}
